@@ -14,7 +14,7 @@ RULE = ('(a) exhaustive: every well-formed operator sequence of length <=2 (quic
         'classes (empty, singleton, ints, ints+exception objects, nested lists, None/falsy elements ending in None, nested lists of None), consumed by iteration / collect / drain / a second iteration of the same Stream object after a complete or abandoned first one; (b) seeded random programs '
         'of length <=7 on lists up to 40; (c) one-to-one chains on an instrumented unbounded source: 0 pulls at construction, pulls <= k + sum of '
         'look-ahead after taking k outputs. non-trivial = program of >=2 operators whose reference output is non-empty or ends in an exception; '
-        'distinct = distinct (program, input); (d) stalled consumption: consumer or source silent for 0.12-2.2 s while buffers / look-ahead windows are full; (e) elements whose == answers True to everything or has no truth value (numpy-like), through buffer / parmap / batch / AsyncIter / SyncIter / async buffer / async parmap: the same objects must come out')
+        'distinct = distinct (program, input); (d) stalled consumption: consumer or source silent for 0.12-2.2 s while buffers / look-ahead windows are full; (e) elements whose == answers True to everything or has no truth value (numpy-like), callables that let StopIteration escape and StopIteration objects as elements (an error, never a silent end); hostile == through buffer / parmap / batch / AsyncIter / SyncIter / async buffer / async parmap: the same objects must come out')
 ASSUMPTIONS = ['groupby groups are materialised by a map directly after groupby (late consumption across threads is schedule-dependent by itertools\' own contract)',
                'shuffle is compared as a multiset and only as the last operator',
                'exceptions compared by (type name, args)']
@@ -34,10 +34,12 @@ def inputs():
         # values an implementation might mistake for "nothing": None and other falsy elements, None last
         'falsy': ('S', [None, 0, '', False, 0.0, (), None]),
         'nested-falsy': ('L', [[None], [], [0, None], [None]]),
+        # an exception object of the class that iteration protocols use for "the end"
+        'stopiter': ('S', [0, 1, ('exc', 'StopIteration', ('elem',)), 3, ('exc', 'ValueError', ('v',)), 4]),
     }
 
 
-EXCS = {'Boom': Boom, 'ValueError': ValueError, 'KeyError': KeyError}
+EXCS = {'Boom': Boom, 'ValueError': ValueError, 'KeyError': KeyError, 'StopIteration': StopIteration}
 
 
 def realize(items):
